@@ -211,6 +211,39 @@ def user_value(fm, key):
     return given, lit
 
 
+def index_values(lfd, o):
+    """Index values of a frame object (first channel, decoded with the code declared in the same file) or None."""
+    fr = lfd.frames.get(tuple(o.name))
+    rows_ = fr.rows if fr else []
+    if not rows_ or any(r[1] is None for r in rows_):
+        return None
+    try:
+        lay = rp66.channel_layout(lfd, o)
+    except rp66.DecodeError:
+        return None
+    code = lay[0][1]
+    if lay[0][2] != 1 or code not in FMT:
+        return None
+    return [_num(code, r[1][0]) for r in rows_]
+
+
+def uniformity(xs):
+    """('uniform' | 'nonuniform' | 'band' | None, dev) of consecutive differences by the documented rule (dev < 0.001)."""
+    if any(isinstance(x, float) and (x != x or math.isinf(x)) for x in xs):
+        return None, None
+    diffs = [b - a for a, b in zip(xs, xs[1:])]
+    if not diffs:
+        return None, None
+    sd = sorted(diffs)
+    med = sd[len(sd) // 2] if len(sd) % 2 else (sd[len(sd) // 2 - 1] + sd[len(sd) // 2]) / 2
+    if all(d == diffs[0] for d in diffs):
+        return 'uniform', 0.0
+    if med == 0:
+        return 'nonuniform', float('inf')
+    dev = max((1 - d / med) ** 2 for d in diffs)
+    return ('uniform' if dev < 0.00098 else ('nonuniform' if dev > 0.00102 else 'band')), dev
+
+
 def index_meta(model, dec, fid, write_op, prop='C13', extra_fp=None):
     out = []
     stats = {'frames': 0, 'skipped_nan': 0, 'band_skipped': 0, 'indexed': 0, 'uniform': 0, 'nonuniform': 0, 'single_row': 0}
